@@ -18,7 +18,7 @@ def sh(cmd, **kw):
 def main():
     ids = sys.argv[1:] or sorted(os.path.basename(d) for d in glob.glob(os.path.join(VERIF, "seeded", "*")) if os.path.exists(os.path.join(d, "patch.diff")))
     if not os.path.isdir(W):
-        print(sh("git -C /repo worktree add --detach %s HEAD" % W).stdout)
+        sh("git -C /repo worktree add --detach %s HEAD" % W)
     sh("git -C %s checkout -q --detach $(git -C /repo rev-parse HEAD); git -C %s checkout -- ." % (W, W))
     os.makedirs(EV, exist_ok=True)
     env = dict(os.environ, SC3D_REPO=W, SC3D_EVIDENCE_DIR=EV)
